@@ -1,0 +1,7 @@
+//go:build !verif
+
+package sync
+
+import "context"
+
+func verifPoint(context.Context, string, ...uint64) {}
